@@ -199,6 +199,18 @@ example : (run init [.enter 0 true, .fire 0, .exitOk 0, .istep 0 .none]).map
 example : run init [.enter 0 true, .fire 0, .exitOk 0, .istep 0 .thrown] = none ↔ True := by
   simp [run, step, init, findLevel, finallyOf, setLevel, updLevel]
 
+/-- tied deadlines: both timers fire in the same pass; the outer interruptor throws first, the inner
+interruptor's throw replaces the pending interrupt before the target has run; the target raises the
+*inner* interrupt, the inner level converts it and the body handles that TimeoutError inside the outer
+block (`raise 1`).  The outer block is still active, so its interruptor — resumed after its
+`task_switch` — must try again (`istep 0 none` is disabled) and the outer block is ended too. -/
+example : (run init [.enter 0 true, .enter 1 true, .fire 0, .fire 1, .istep 0 .thrown, .istep 1 .thrown,
+      .raise 1, .istep 0 .thrown, .raise 1]).map (fun s => (s.convs, s.stack.length))
+    = some ([(0, 0), (1, 1)], 0) := by decide
+example : run init [.enter 0 true, .enter 1 true, .fire 0, .fire 1, .istep 0 .thrown, .istep 1 .thrown,
+      .raise 1, .istep 0 .none] = none ↔ True := by
+  simp [run, step, init, findLevel, setLevel, updLevel, unwind, levelExit, finallyOf]
+
 /-- three refusals: the interruptor gives up after the third (exception handler) -/
 example : (run init [.enter 0 true, .fire 0, .istep 0 .refused, .istep 0 .refused,
       .istep 0 .refused]).map (fun s => s.stack.map (fun l => (decide (l.ist = .done), l.failed)))
